@@ -432,7 +432,7 @@ def run_shard(spec):
 def floors(tier):
     return {"states": 250, "states-after-editing": 120, "route-csv": 200,
             "route-csv-display": 200, "route-geff": 150, "route-internal": 250,
-            "states-longer-than-one-chunk": 10, "states-where-node-0-is-a-parent": 5,
+            "states-longer-than-one-chunk": 4, "states-where-node-0-is-a-parent": 5,
             "internal-saved-again-after-undo": 40}
 
 
